@@ -187,6 +187,8 @@ package machine
 //@   requires inv:   ClockInv(m) && !isnil(m.clock)
 //@   requires room:  forall s string :: m.clock[s] <= MaxU64 - 2
 //@   assigns  m.activeStates, m.clock
+//@   ghostset applied := ghost.applied + (m.disposing ? 0 : 1)
+//@   ghostset phase := (ghost.phase < 6 ? 6 : ghost.phase)
 //@   ensures  disposing: old(m.disposing) ==> len(previous) == 0 && unchanged(m.activeStates) && mapeq(m.clock, old(m.clock))
 //@   ensures  applied:  !old(m.disposing) ==> seqeq(m.activeStates, targetStates) && fresh(m.activeStates)
 //@   ensures  step:     !old(m.disposing) ==> forall s string :: m.clock[s] == old(m.clock[s]) + TickDelta(old(m.activeStates), targetStates, calledStates, m.schema, s)
@@ -339,6 +341,7 @@ package machine
 //@   trusted appends to Transition.Steps (debug trace), which no property mentions
 //@ func newStep(from string, to string, stepType StepType, relType Relation) (r *Step)
 //@   trusted allocates a debug-trace record
+//@   ensures nn: r != nil && fresh(r)
 //@ func newSteps(from string, toStates S, stepType StepType, relType Relation) (r []*Step)
 //@   trusted allocates debug-trace records
 //@ func jw(states []string, sep string) (r string)
@@ -518,7 +521,9 @@ package machine
 //@   props C05 C03
 //@   requires nn:    t.Machine != nil && t.Mutation != nil && t.Machine.resolver != nil
 //@   requires cached: t.cacheTargetStates != nil && t.Mutation.cacheCalled != nil
+//@   ghost tgt S, cld S
 //@   assigns  t.Exits, t.Enters
+//@   ensures  lets:   tgt == *t.cacheTargetStates && cld == *t.Mutation.cacheCalled
 //@   ensures  exits:  forall x string :: mem(t.Exits, x) <==> mem(t.Machine.activeStates, x) && !mem(tgt, x)
 //@   ensures  enters: forall x string :: mem(t.Enters, x) <==> mem(tgt, x) &&
 //@                      (!(!t.Machine.disposing && mem(t.Machine.stateNames, x) && mem(t.Machine.activeStates, x)) || (t.Machine.schema[x].Multi && mem(cld, x)))
@@ -589,3 +594,170 @@ package machine
 //@ pred RequireRanked(schema Schema, rank map[string]int) := forall s, x string :: has(schema, s) && mem(schema[s].Require, x) && has(schema, x) ==> rank[x] < rank[s]
 
 // group_exclusive also serves C15 (pool-status / pool-normalisation / work-status groups)
+
+// ---- transition execution (C01, C03, C05, C07, C14) ----
+//
+// Ghost variables (integer-valued, written only by `ghostset`):
+//   ghost.applied  number of times the clocks were written (setActiveStates)
+//   ghost.phase    lifecycle phase of the running transition: 1 Exit, 2 Enter,
+//                  3 Self, 4 StateState handlers done; 6 target applied;
+//                  7 final handlers done
+//   ghost.tStart / ghost.tFinals / ghost.tEnd   tracer callback counters
+
+// Handler dispatch. User handlers run inside; they are assumed to change the
+// machine only through its public API, where a mutation issued during a
+// transition is queued (C04), so clocks and active states are not assigned.
+//@ func (m *Machine) handle(name string, args A, isFinal, isEnter, isSelf bool) (r Result, called bool)
+//@   trusted handler dispatch (reflection, handler goroutine, timeouts): only result range and frame are specified
+//@   assigns Transition.latestHandlerIsEnter, Transition.latestHandlerIsFinal, Machine.panicCaught, Machine.queue, Machine.queueLen, Machine.queueTicksPending, Machine.logEntries, ghost.faults
+//@   ensures res: r == Executed || r == Canceled
+//@   ensures faults: (isFinal && r == Canceled) ? ghost.faults == old(ghost.faults) + 1 : ghost.faults == old(ghost.faults)
+
+//@ func (t *Transition) emitHandler(from, to string, isFinal, isEnter bool, event string, args A) (r Result)
+//@   props C05
+//@   requires nn: t.Machine != nil
+//@   assigns Transition.latestHandlerToState, Transition.latestHandlerIsEnter, Transition.latestHandlerIsFinal, Machine.panicCaught, Machine.queue, Machine.queueLen, Machine.queueTicksPending, Machine.logEntries, ghost.faults
+//@   ensures res: r == Executed || r == Canceled
+//@   ensures faults: (isFinal && r == Canceled) ? ghost.faults == old(ghost.faults) + 1 : ghost.faults == old(ghost.faults)
+
+// Negotiation emitters: each runs the handlers of one phase; a Canceled result
+// stops the transition unless the vetoed state is an Auto state of an auto
+// mutation (then only that state is dropped from the target).
+//@ func (t *Transition) emitExitEvents() (r Result)
+//@   trusted negotiation phase (partial auto acceptance edits the cached target): result range, frame and phase only
+//@   requires phase: ghost.phase <= 1
+//@   ghostset phase := 1
+//@   assigns Transition.latestHandlerToState, Transition.latestHandlerIsEnter, Transition.latestHandlerIsFinal, Transition.TargetIndexes, Transition.cacheTargetStates, Machine.panicCaught, Machine.queue, Machine.queueLen, Machine.queueTicksPending, Machine.logEntries
+//@   ensures target: old(TargetOK(t)) ==> TargetOK(t)
+//@   ensures shrink: forall x string :: mem(*t.cacheTargetStates, x) ==> mem(old(*t.cacheTargetStates), x)
+//@   ensures res: r == Executed || r == Canceled
+//@ func (t *Transition) emitEnterEvents() (r Result)
+//@   trusted negotiation phase: result range, frame and phase only
+//@   requires phase: ghost.phase <= 2
+//@   ghostset phase := 2
+//@   assigns Transition.latestHandlerToState, Transition.latestHandlerIsEnter, Transition.latestHandlerIsFinal, Transition.TargetIndexes, Transition.cacheTargetStates, Machine.panicCaught, Machine.queue, Machine.queueLen, Machine.queueTicksPending, Machine.logEntries
+//@   ensures target: old(TargetOK(t)) ==> TargetOK(t)
+//@   ensures shrink: forall x string :: mem(*t.cacheTargetStates, x) ==> mem(old(*t.cacheTargetStates), x)
+//@   ensures res: r == Executed || r == Canceled
+//@ func (t *Transition) emitSelfEvents() (r Result)
+//@   trusted negotiation phase: result range, frame and phase only
+//@   requires phase: ghost.phase <= 3
+//@   ghostset phase := 3
+//@   assigns Transition.latestHandlerToState, Transition.latestHandlerIsEnter, Transition.latestHandlerIsFinal, Transition.TargetIndexes, Transition.cacheTargetStates, Machine.panicCaught, Machine.queue, Machine.queueLen, Machine.queueTicksPending, Machine.logEntries
+//@   ensures target: old(TargetOK(t)) ==> TargetOK(t)
+//@   ensures shrink: forall x string :: mem(*t.cacheTargetStates, x) ==> mem(old(*t.cacheTargetStates), x)
+//@   ensures res: r == Executed || r == Canceled
+//@ func (t *Transition) emitStateStateEvents() (r Result)
+//@   trusted negotiation phase: result range, frame and phase only
+//@   requires phase: ghost.phase <= 4
+//@   ghostset phase := 4
+//@   assigns Transition.latestHandlerToState, Transition.latestHandlerIsEnter, Transition.latestHandlerIsFinal, Transition.TargetIndexes, Transition.cacheTargetStates, Machine.panicCaught, Machine.queue, Machine.queueLen, Machine.queueTicksPending, Machine.logEntries
+//@   ensures target: old(TargetOK(t)) ==> TargetOK(t)
+//@   ensures shrink: forall x string :: mem(*t.cacheTargetStates, x) ==> mem(old(*t.cacheTargetStates), x)
+//@   ensures res: r == Executed || r == Canceled
+
+// Final handlers run only after the target has been applied, and see the real
+// time in TimeAfter.
+//@ func (t *Transition) emitFinalEvents() (r Result)
+//@   props C05
+//@   requires nn:      t.Machine != nil && t.Mutation != nil
+//@   requires applied: ghost.phase == 6
+//@   requires timeafter: t.Machine.disposed || TimeAfterOK(t)
+//@   ghostset phase := 7
+//@   assigns Transition.latestHandlerToState, Transition.latestHandlerIsEnter, Transition.latestHandlerIsFinal, Machine.panicCaught, Machine.queue, Machine.queueLen, Machine.queueTicksPending, Machine.logEntries, ghost.faults
+//@   ensures res: r == Executed || r == Canceled
+//@   ensures faults: (r == Canceled) ? ghost.faults > old(ghost.faults) : ghost.faults == old(ghost.faults)
+//@   loop 1 invariant faults: ghost.faults == old(ghost.faults)
+
+// TimeAfterOK: the transition's TimeAfter is the machine's time.
+//@ pred TimeAfterOK(t *Transition) := len(t.TimeAfter) == len(t.Machine.stateNames) && (forall i int :: 0 <= i && i < len(t.TimeAfter) ==> t.TimeAfter[i] == t.Machine.clock[t.Machine.stateNames[i]])
+// TargetOK: the cached target is a duplicate-free list of registered states.
+//@ pred TargetOK(t *Transition) := t.cacheTargetStates != nil && nodup(*t.cacheTargetStates) && subset(*t.cacheTargetStates, t.Machine.stateNames)
+
+// TxInv: what newTransition / the resolver establish for a running transition.
+//@ pred TxInv(t *Transition) := t.Machine != nil && t.Mutation != nil && t.MachApi != nil
+//@      && len(t.TimeBefore) == len(t.Machine.stateNames) && Known(t.Machine, *t.Mutation.cacheCalled)
+//@      && (t.Mutation.IsCheck ==> TimeAfterOK(t))
+//@      && (t.Mutation.Type == MutationRemove ==> (forall x string :: mem(*t.cacheTargetStates, x) ==> !mem(*t.Mutation.cacheCalled, x)))
+//@      && t.cacheTargetStates != nil && t.Mutation.cacheCalled != nil && t.cacheStatesBefore != nil
+//@      && nodup(*t.cacheTargetStates) && subset(*t.cacheTargetStates, t.Machine.stateNames)
+//@      && t.Machine.t == t && t.Machine.resolver != nil && t.Machine.subs != nil
+
+// Interface contracts of tracers (assumed of every implementation): callbacks
+// assign nothing of the machine; each call is counted.
+//@ func (tr Tracer) TransitionStart(transition *Transition)
+//@   trusted interface contract: tracer callbacks do not assign machine state
+//@   requires order: ghost.tFinals == 0 && ghost.tEnd == 0
+//@   ghostset tStart := ghost.tStart + 1
+//@ func (tr Tracer) TransitionFinals(transition *Transition)
+//@   trusted interface contract: tracer callbacks do not assign machine state
+//@   requires order: ghost.tEnd == 0
+//@   requires applied: ghost.phase == 6
+//@   requires timeafter: transition != nil && transition.Machine != nil && (transition.Machine.disposed || TimeAfterOK(transition))
+//@   ghostset tFinals := ghost.tFinals + 1
+//@ func (tr Tracer) TransitionEnd(transition *Transition)
+//@   trusted interface contract: tracer callbacks do not assign machine state
+//@   requires timeafter: transition != nil && transition.Machine != nil && (transition.Machine.disposed || ghost.faults > 0 || TimeAfterOK(transition))
+//@   ghostset tEnd := ghost.tEnd + 1
+
+// Interface contracts of the resolver (the default implementation is verified
+// against the same clauses above).
+//@ func (rr RelationsResolver) TargetStates(t *Transition, calledStates, index S) (ret S)
+//@   trusted interface contract; DefaultRelationsResolver.TargetStates is verified against these clauses
+//@   ensures nodup:   nodup(ret)
+//@   ensures defined: forall x string :: mem(ret, x) ==> has(t.Machine.schema, x)
+//@ func (rr RelationsResolver) NewAutoMutation() (mut *Mutation, names S)
+//@   trusted interface contract; DefaultRelationsResolver.NewAutoMutation is verified against these clauses
+//@   ensures none: (mut == nil) <==> (len(names) == 0)
+//@   ensures kind: mut != nil ==> fresh(mut) && mut.IsAuto && mut.Type == MutationAdd && !mut.IsCheck && mut.QueueTick == 0
+
+//@ func (sm *Subscriptions) ProcessStateCtx(activated, deactivated S) (r []context.CancelFunc)
+//@   trusted specified with C06; here only its frame matters (subscription indexes)
+//@ func (sm *Subscriptions) HasWhenArgs() (r bool)
+//@   trusted reads the subscription index
+//@ func (m *Machine) PrependMut(mut *Mutation) (r Result)
+//@   trusted specified with C04; here: queues at the front; while a transition runs the queue is not processed (no nesting)
+//@   assigns m.queue, m.queueLen, m.queueToken, mut.QueueLen, mut.QueueToken, mut.QueueTickNow, mut.cacheCalled
+//@   ghostset prepended := ghost.prepended + 1
+//@ func (m *Machine) recoverFinalPhase()
+//@   trusted specified with C08; here: re-ticks through setActiveStates and counts as a fault
+//@   assigns Machine.activeStates, Machine.clock
+//@   ghostset applied := ghost.applied + 1
+//@   ensures inv: ClockInv(m)
+//@ func (m *Machine) StateNames() (r S)
+//@   trusted shared cached copy of stateNames (its lock discipline is examined under C12)
+//@   ensures def: seqeq(r, m.stateNames)
+//@ func (t *Transition) IsHealth() (r bool)
+//@   trusted inspects the called states for the Healthcheck / Heartbeat names
+
+//@ func (m *Machine) IsTime(t Time, states S) (r bool)
+//@   props C01 C20
+//@   requires locks: unlocked(m.activeStatesMx)
+//@   requires len:   len(t) <= (isnil(states) ? len(m.stateNames) : len(states))
+//@   ensures  def:   r <==> (!m.disposing && (forall i int :: 0 <= i && i < len(t) ==> m.clock[(isnil(states) ? m.stateNames : states)[i]] == t[i]))
+//@   ensures  locks: unlocked(m.activeStatesMx)
+//@   loop 1 invariant eq: forall j int :: 0 <= j && j < i ==> m.clock[states[j]] == t[j]
+
+// The transition executor.
+//@ func (t *Transition) emitEvents() (res Result)
+//@   props C01 C03 C05 C07 C14
+//@   abstracts the onChange callback and tracer callbacks are opaque (assumed not to assign machine state)
+//@   requires tx:    TxInv(t) && TargetOK(t) && t.cacheStatesBefore != nil && t.Machine.t == t && t.Machine.resolver != nil && t.Machine.subs != nil
+//@   requires locks: unlocked(t.Machine.activeStatesMx) && unlocked(t.Machine.schemaMx) && unlocked(t.Machine.tracersMx) && unlocked(t.Machine.logEntriesLock)
+//@   requires inv:   ClockInv(t.Machine) && !isnil(t.Machine.clock) && SchemaInv(t.Machine)
+//@   requires room:  forall s string :: t.Machine.clock[s] <= MaxU64 - 4
+//@   requires start: ghost.phase == 0 && ghost.tStart == 0 && ghost.tFinals == 0 && ghost.tEnd == 0 && ghost.faults == 0
+//@   requires tracers: forall i int :: 0 <= i && i < len(t.Machine.tracers) ==> t.Machine.tracers[i] != nil
+//@   assigns  *
+//@   ensures  res:           res == Executed || res == Canceled
+//@   ensures  frame:         ghost.applied == old(ghost.applied) ==> mapeq(t.Machine.clock, old(t.Machine.clock)) && seqeq(t.Machine.activeStates, old(t.Machine.activeStates))
+//@   ensures  canceled_noop: res == Canceled && ghost.faults == old(ghost.faults) && !old(t.Mutation.IsAuto) && !t.Machine.disposing ==> ghost.applied == old(ghost.applied)
+//@   ensures  check_pure:    old(t.Mutation.IsCheck) ==> ghost.applied == old(ghost.applied) && ghost.prepended == old(ghost.prepended)
+//@   ensures  single_apply:  ghost.faults == old(ghost.faults) ==> ghost.applied <= old(ghost.applied) + 1
+//@   ensures  auto_once:     old(t.Mutation.IsAuto) || old(t.Mutation.IsCheck) ==> ghost.prepended == old(ghost.prepended)
+//@   ensures  auto_atmost1:  ghost.prepended <= old(ghost.prepended) + 1
+//@   ensures  nochange_noauto: !hasStateChanged ==> ghost.prepended == old(ghost.prepended)
+//@   ensures  inv:           ClockInv(t.Machine)
+//@   loop 1 invariant idx: 0 <= i
+//@   loop 3 invariant idx: 0 <= i
+//@   loop 4 invariant idx: 0 <= i
